@@ -157,15 +157,19 @@ def ended_held(obs):
     return m['angular speed'][-1] == 0.0 and m['angular acceleration'][-1] == 0.0
 
 
-def check_continuation(acc, name, dtv, ns, units):
+def check_continuation(acc, name, dtv, ns, units, newsolver=False):
     """[run n1, run n2, ...] (later runs in `units`) vs one run of the total."""
-    case = {'kind': 'cont', 'model': name, 'dt': dtv, 'ns': list(ns), 'units': list(units)}
-    ops = [('run', ns[0], 'sec', 'sec')] + [('run', n, units[0], units[1]) for n in ns[1:]]
+    case = {'kind': 'cont', 'model': name, 'dt': dtv, 'ns': list(ns), 'units': list(units), 'newsolver': newsolver}
+    ops = [('run', ns[0], 'sec', 'sec')]
+    for n in ns[1:]:
+        if newsolver:
+            ops.append(('newsolver',))        # the continuation is performed by a Solver created after the earlier run
+        ops.append(('run', n, units[0], units[1]))
     segs, err, _ = execute(name, ops, dtv)
     ref_segs, ref_err, _ = execute(name, [('run', sum(ns), 'sec', 'sec')], dtv)
     acc.executions += 2
     acc.transitions += len(segs[-1]['time']) + len(ref_segs[-1]['time'])
-    unit_tag = 'same-unit' if units == ('sec', 'sec') else 'other-unit'
+    unit_tag = ('same-unit' if units == ('sec', 'sec') else 'other-unit') + ('/continued-by-new-solver' if newsolver else '')
     binary = 'binary-dt' if dtv == DT else 'decimal-dt'
     if err or ref_err:
         acc.violation(f'C12/continuation/error/{unit_tag}', 'runs succeed', case, {'split': err, 'single': ref_err})
@@ -216,6 +220,11 @@ def run_shard(shard, tier):
                     check_continuation(acc, name, dtv, (n1, n2), units)
                     acc.nstates += 1
                     acc.cases += 1
+                if name in ('plain', 'controlled', 'timeload'):
+                    # (a Solver only carries the held state of a self-locking chain; on other chains a Solver created
+                    #  between the runs holds nothing the continuation could depend on)
+                    check_continuation(acc, name, dtv, (n1, n2), combos[0], newsolver=True)
+                    acc.nstates += 1
         for n1, n2, n3 in itertools.product(range(2, 5 if tier == 'quick' else 6), repeat=3):
             for units in combos[:2]:
                 check_continuation(acc, name, dtv, (n1, n2, n3), units)
@@ -239,7 +248,7 @@ def run_shard(shard, tier):
 def replay(case):
     acc = Acc()
     if case.get('kind') == 'cont':
-        check_continuation(acc, case['model'], case['dt'], tuple(case['ns']), tuple(case['units']))
+        check_continuation(acc, case['model'], case['dt'], tuple(case['ns']), tuple(case['units']), newsolver=case.get('newsolver', False))
     elif case.get('kind') == 'reset':
         check_reset(acc, case['model'], case['dt'], tuple(case['ns']), case['newsolver'])
     else:
